@@ -229,7 +229,7 @@ def run(ctx):
     from ..harness import fresh_dir, drop_dir
     wd = fresh_dir("c11")
     der = build_derivs()
-    n = ctx.n(110, 250)
+    n = ctx.n(330, 250)
     for i in range(n):
         one_case(ctx, ctx.rng(), der, wd, force3d=(i % 4 == 0), unequal=(i % 3 == 0))
         if ctx.out_of_time():
